@@ -301,17 +301,37 @@ Proof.
   f_equal. simpl app. apply ne_parts_app.
 Qed.
 
+Lemma spec_key_simple : forall k, simple_comp k = true -> spec_key k = Some [k].
+Proof.
+  intros k Hk. apply simple_comp_facts in Hk as [Hns [Hkeep [Hdd Hne]]].
+  unfold spec_key. destruct k as [|x k'] eqn:Ek; [contradiction|]. rewrite <- Ek in *.
+  assert (Ha : is_absolute k = false).
+  { subst k. simpl. inversion Hns; subst. destruct (N.eqb_spec x 47); [|reflexivity].
+    exfalso. apply H1. assumption. }
+  rewrite Ha. unfold split_slash. rewrite split_no_slash by exact Hns. simpl rev. simpl app.
+  simpl filter. rewrite Hkeep. simpl existsb. rewrite Hdd. reflexivity.
+Qed.
+
+Lemma chunk_name_simple : forall f k co, simple_comp k = true ->
+  spec_chunk_name f k co = Some (spec_chunk_rel f k co).
+Proof.
+  intros f k co Hk. unfold spec_chunk_name. rewrite (spec_key_simple k Hk). destruct f; reflexivity.
+Qed.
+
 (* chunks: the flat URL, through the documented server, gives what the local
-   accessor gives *)
+   accessor gives (scale keys as generated: one component) *)
 Theorem http_eq_local_chunk : forall t m key co,
-  Inv t m -> op_ok c ex U X (OFetchChunk key co) -> nonneg co ->
+  Inv t m -> simple_comp key = true -> op_ok c ex U X (OFetchChunk key co) -> nonneg co ->
   fst (hrun B (serve B (plain []) slice sc t) 0
             (http_fetch_chunk B plain gunzip base_url key co))
   = out_data (fst (run_op B plain gz gunzip c t (OFetchChunk key co))).
 Proof.
-  intros t m key co HI Hok Hnn. pose proof Hok as [Hk [Hin Hoth]].
+  intros t m key co HI Hk Hok Hnn. pose proof Hok as [_ [_ Hin']].
+  destruct (Hin' [key] (spec_key_simple key Hk)) as [Hin Hoth].
+  replace ([key] ++ spec_chunk_tail (flat c) co) with (spec_chunk_rel (flat c) key co) in Hin
+    by (destruct (flat c); reflexivity).
   destruct (op_refines B plain gz gunzip Hgz c ex U X Hbase HU HPF HX t m _ HI Hok) as [t' [Hr _]].
-  rewrite Hr. unfold spec_op. simpl op_name. cbv iota. simpl fst.
+  rewrite Hr. unfold spec_op. simpl op_name. rewrite (chunk_name_simple (flat c) key co Hk). cbv iota. simpl fst.
   apply simple_comp_facts in Hk as [Hns [Hkeep [_ Hkne]]].
   unfold http_fetch_chunk, http_fetch_file. simpl hrun. unfold serve. simpl r_url.
   rewrite chunk_str_flat_eq, url_parts_rel, ne_parts_app.
@@ -425,85 +445,6 @@ Proof.
   destruct (st =? 404); [reflexivity|]. destruct (is_error_status st); reflexivity.
 Qed.
 
-(* ---------- the sharded HTTP reader, as coded, never returns data ---------- *)
-
-Variable unplain : B -> option (list N).
-Variable idx_decode : list N -> option (list N).
-Variable locate : list (list N) -> N -> outcome (N * N).
-Variable data_decode : list N -> outcome (list N).
-
-Definition never_ok (p : hprog B (outcome B)) : Prop :=
-  forall (srv : server B) n d, fst (hrun B srv n p) <> Ok d.
-
-(* stronger: every outcome is an I/O error or a crash *)
-Definition err_only (p : hprog B (outcome B)) : Prop :=
-  forall (srv : server B) n, exists e, fst (hrun B srv n p) = e /\ match e with Ok _ => False | _ => True end.
-
-Lemma err_only_never : forall p, err_only p -> never_ok p.
-Proof. intros p H srv n d E. destruct (H srv n) as [e [He Hn]]. rewrite E in He. subst e. exact Hn. Qed.
-
-Lemma err_ret : forall e : outcome B, match e with Ok _ => False | _ => True end -> err_only (HRet e).
-Proof. intros e H srv n. exists e. split; [reflexivity | exact H]. Qed.
-
-Lemma err_file_exists : forall url k, (forall b, err_only (k b)) ->
-  err_only (hs_file_exists B url k).
-Proof.
-  intros url k Hk srv n. unfold hs_file_exists. simpl.
-  destruct (srv n _) as [st e body|]; [|eexists; split; [reflexivity | exact I]].
-  destruct (st =? 200); [apply Hk|]. destruct (st =? 404); [apply Hk|].
-  destruct (is_error_status st); [eexists; split; [reflexivity | exact I] | apply Hk].
-Qed.
-
-Lemma err_read_bytes : forall su legacy hl off len k, (forall bs, err_only (k bs)) ->
-  err_only (hs_read_bytes B plain gunzip unplain su legacy hl off len k).
-Proof.
-  intros su legacy hl off len k Hk srv n. unfold hs_read_bytes.
-  destruct (if legacy then if off <? hl then (su ++ s_index, off) else (su ++ s_data, off - hl)
-            else (su ++ s_shard, off)) as [url o]. simpl.
-  destruct (srv n _) as [st e body|]; [|eexists; split; [reflexivity | exact I]].
-  destruct (is_error_status st); [eexists; split; [reflexivity | exact I]|].
-  destruct (content B plain gunzip e body) as [x|]; [|eexists; split; [reflexivity | exact I]].
-  destruct (unplain x) as [bs|]; [|eexists; split; [reflexivity | exact I]].
-  destruct (lenN bs =? len); [apply Hk | eexists; split; [reflexivity | exact I]].
-Qed.
-
-Lemma err_populate : forall ranges su legacy hl acc k, (forall l, err_only (k l)) ->
-  err_only (hs_populate B plain gunzip unplain idx_decode su legacy hl ranges acc k).
-Proof.
-  induction ranges as [|[off en] r IH]; intros su legacy hl acc k Hk; simpl.
-  - apply Hk.
-  - destruct ((en + two64 - off) mod two64 =? 0); [apply IH; exact Hk|].
-    apply err_read_bytes. intro raw.
-    destruct (idx_decode raw) as [dec|]; [|apply err_ret; exact I].
-    destruct (minishard_ok dec); try (apply err_ret; exact I).
-    apply IH. exact Hk.
-Qed.
-
-Theorem http_sharded_never_data : forall scale_url shard_name hl cmc,
-  err_only (hs_fetch B plain gunzip unplain idx_decode locate data_decode false
-                     scale_url shard_name hl cmc).
-Proof.
-  intros scale_url shard_name hl cmc. unfold hs_fetch.
-  assert (Hgo : forall legacy,
-    err_only (hs_read_bytes B plain gunzip unplain (scale_url ++ shard_name) legacy hl 0 hl
-      (fun hdr => hs_populate B plain gunzip unplain idx_decode (scale_url ++ shard_name) legacy hl
-                    (pairs (words64 (length hdr) hdr)) []
-                    (fun idxs => if negb false then HRet (Crash AssertionError)
-                                 else match locate idxs cmc with
-                                      | Ok (off, len) =>
-                                          hs_read_bytes B plain gunzip unplain (scale_url ++ shard_name) legacy hl off len
-                                            (fun raw => match data_decode raw with
-                                                        | Ok b => HRet (Ok (plain b))
-                                                        | Crash c => HRet (Crash c)
-                                                        | _ => HRet IOErr end)
-                                      | Crash c => HRet (Crash c)
-                                      | _ => HRet IOErr end)))).
-  { intro legacy. apply err_read_bytes. intro hdr. apply err_populate. intro l. simpl. apply err_ret. exact I. }
-  apply err_file_exists. intros [|]; [apply Hgo|].
-  apply err_file_exists. intros [|]; [|apply err_ret; exact I].
-  apply err_file_exists. intros [|]; [apply Hgo | apply err_ret; exact I].
-Qed.
-
 End STATUS.
 
 (* ---------- dispatch ---------- *)
@@ -582,21 +523,470 @@ End DISPATCH.
 
 (* ---------- base URL ---------- *)
 
-Theorem http_init_on_guard : forall url, u_path (urlsplit url) <> [] -> exists bu, http_init url = Ok bu.
-Proof.
-  intros url H. unfold http_init. destruct (rev (u_path (urlsplit url))) eqn:E.
-  - apply (f_equal (@rev _)) in E. rewrite rev_involutive in E. contradiction.
-  - eexists. reflexivity.
-Qed.
+(* HttpAccessor.__init__ always yields a base URL (an empty path becomes "/") *)
+Theorem http_init_total : forall url, exists bu, http_init url = Ok bu.
+Proof. intro url. unfold http_init. eexists. reflexivity. Qed.
 
-Lemma empty_path_refuted :
-  exists url, u_path (urlsplit url) = [] /\ http_init url = Crash IndexError.
-Proof.
+Lemma http_init_empty_path_example :
   (* "http://h:80" *)
-  exists [104;116;116;112;58;47;47;104;58;56;48]. vm_compute. split; reflexivity.
+  u_path (urlsplit [104;116;116;112;58;47;47;104;58;56;48]) = [] /\
+  http_init [104;116;116;112;58;47;47;104;58;56;48]
+  = Ok [104;116;116;112;58;47;47;104;58;56;48;47].
+Proof. vm_compute. split; reflexivity. Qed.
+
+(* ====================================================================== *)
+(* Sharded datasets: the HTTP reader equals the local reader. *)
+
+Section SHARDED.
+Variable B : Type.
+Variable plain : list N -> B.
+Variable gunzip : B -> gzres.
+Variable unplain : B -> option (list N).
+Variable idx_decode : list N -> option (list N).
+Variable locate : list (list N) -> N -> outcome (N * N).
+Variable data_decode : list N -> outcome (list N).
+
+Definition omap (o : outcome (list N)) : outcome B :=
+  match o with
+  | Ok b => Ok (plain b)
+  | FormatErr => FormatErr | InfoErr => InfoErr | AccessErr => AccessErr
+  | IOErr => IOErr | Refused => Refused | Crash k => Crash k
+  end.
+
+Lemma omap_bind : forall A (o : outcome A) (f : A -> outcome (list N)),
+  omap (bind o f) = match o with
+                    | Ok x => omap (f x)
+                    | FormatErr => FormatErr | InfoErr => InfoErr | AccessErr => AccessErr
+                    | IOErr => IOErr | Refused => Refused | Crash k => Crash k
+                    end.
+Proof. intros A o f. destruct o; reflexivity. Qed.
+
+(* --- any stateless server: hs_fetch is the generic algorithm over the
+   server's answers --- *)
+Variable srv : server B.
+Hypothesis Hstateless : forall n m r, srv n r = srv m r.
+
+Definition http_ex (url : list N) : outcome bool :=
+  match srv 0%nat {| r_meth := HEAD; r_url := url; r_range := None |} with
+  | ConnErr => IOErr
+  | Resp st _ _ =>
+      if st =? 200 then Ok true else if st =? 404 then Ok false
+      else if is_error_status st then IOErr else Ok false
+  end.
+
+Definition http_rd (su : list N) (hl : N) (legacy : bool) (off len : N) : outcome (list N) :=
+  if len =? 0 then Ok [] else
+  let '(suffix, o) := pick legacy hl off in
+  match srv 0%nat {| r_meth := GET; r_url := su ++ suffix; r_range := Some (o, o + len - 1) |} with
+  | ConnErr => IOErr
+  | Resp st enc body =>
+      if is_error_status st then IOErr
+      else match content B plain gunzip enc body with
+           | None => IOErr
+           | Some c =>
+               match unplain c with
+               | None => Crash OutOfFuel
+               | Some bytes => if lenN bytes =? len then Ok bytes else IOErr
+               end
+           end
+  end.
+
+Lemma ex_run : forall url (k : bool -> hprog B (outcome B)) (kp : bool -> outcome (list N)),
+  (forall b n, fst (hrun B srv n (k b)) = omap (kp b)) ->
+  forall n, fst (hrun B srv n (hs_file_exists B url k)) = omap (bind (http_ex url) kp).
+Proof.
+  intros url k kp Hk n. unfold hs_file_exists, http_ex. simpl.
+  rewrite (Hstateless n 0%nat).
+  destruct (srv 0%nat _) as [st e body|]; [|reflexivity].
+  destruct (st =? 200); [apply Hk|]. destruct (st =? 404); [apply Hk|].
+  destruct (is_error_status st); [reflexivity | apply Hk].
 Qed.
 
-(* ---------- witness: a real shard, served; local read vs HTTP ---------- *)
+Lemma rd_run : forall su legacy hl off len (k : list N -> hprog B (outcome B)) (kp : list N -> outcome (list N)),
+  (forall x n, fst (hrun B srv n (k x)) = omap (kp x)) ->
+  forall n, fst (hrun B srv n (hs_read_bytes B plain gunzip unplain su legacy hl off len k))
+            = omap (bind (http_rd su hl legacy off len) kp).
+Proof.
+  intros su legacy hl off len k kp Hk n. unfold hs_read_bytes, http_rd, pick.
+  destruct legacy; [destruct (off <? hl)|]; (destruct (len =? 0); [simpl; apply Hk|]);
+    simpl; rewrite (Hstateless n 0%nat);
+    (destruct (srv 0%nat _) as [st e body|]; [|reflexivity];
+     destruct (is_error_status st); [reflexivity|];
+     destruct (content B plain gunzip e body) as [x|]; [|reflexivity];
+     destruct (unplain x) as [bs|]; [|reflexivity];
+     destruct (lenN bs =? len); [apply Hk | reflexivity]).
+Qed.
+
+Lemma populate_run : forall ranges su legacy hl acc (k : list (list N) -> hprog B (outcome B))
+                            (kp : list (list N) -> outcome (list N)),
+  (forall x n, fst (hrun B srv n (k x)) = omap (kp x)) ->
+  forall n, fst (hrun B srv n (hs_populate B plain gunzip unplain idx_decode su legacy hl ranges acc k))
+            = omap (bind (populate_pure idx_decode (http_rd su hl) legacy hl ranges acc) kp).
+Proof.
+  induction ranges as [|[off en] r IH]; intros su legacy hl acc k kp Hk n; simpl.
+  - apply Hk.
+  - destruct ((en + two64 - off) mod two64 =? 0); [apply IH; exact Hk|].
+    rewrite (rd_run su legacy hl (off + hl) _ _
+               (fun raw => bind (match idx_decode raw with
+                                 | None => Crash ZlibError
+                                 | Some dec => match minishard_ok dec with
+                                               | Ok _ => populate_pure idx_decode (http_rd su hl) legacy hl r (dec :: acc)
+                                               | Crash c => Crash c
+                                               | _ => IOErr end end) kp)).
+    + destruct (http_rd su hl legacy (off + hl) _); reflexivity.
+    + intros raw n'. destruct (idx_decode raw) as [dec|]; [|reflexivity].
+      destruct (minishard_ok dec); try reflexivity. apply IH. exact Hk.
+Qed.
+
+Theorem hs_fetch_is_algo : forall scale_url shard_name hl cmc n,
+  fst (hrun B srv n (hs_fetch B plain gunzip unplain idx_decode locate data_decode scale_url shard_name hl cmc))
+  = omap (shard_fetch_pure idx_decode locate data_decode
+            (fun suffix => http_ex ((scale_url ++ shard_name) ++ suffix))
+            (http_rd (scale_url ++ shard_name) hl) IOErr hl cmc).
+Proof.
+  intros scale_url shard_name hl cmc n. unfold hs_fetch, shard_fetch_pure.
+  set (su := scale_url ++ shard_name).
+  assert (Hgo : forall legacy n',
+    fst (hrun B srv n'
+      (hs_read_bytes B plain gunzip unplain su legacy hl 0 hl (fun hdr =>
+         hs_populate B plain gunzip unplain idx_decode su legacy hl (pairs (words64 (length hdr) hdr)) []
+           (fun idxs => match locate idxs cmc with
+                        | Ok (off, len) =>
+                            hs_read_bytes B plain gunzip unplain su legacy hl off len (fun raw =>
+                              match data_decode raw with
+                              | Ok b => HRet (Ok (plain b))
+                              | Crash c => HRet (Crash c)
+                              | _ => HRet IOErr end)
+                        | Crash c => HRet (Crash c)
+                        | _ => HRet IOErr end))))
+    = omap (bind (http_rd su hl legacy 0 hl) (fun hdr =>
+            bind (populate_pure idx_decode (http_rd su hl) legacy hl (pairs (words64 (length hdr) hdr)) [])
+              (fun idxs => match locate idxs cmc with
+                           | Ok (off, len) =>
+                               bind (http_rd su hl legacy off len) (fun raw =>
+                                 match data_decode raw with
+                                 | Ok b => Ok b
+                                 | Crash c => Crash c
+                                 | _ => IOErr end)
+                           | Crash c => Crash c
+                           | _ => IOErr end)))).
+  { intros legacy n'. apply rd_run. intros hdr n1. apply populate_run. intros idxs n2.
+    destruct (locate idxs cmc) as [[off len]| | | | | |c]; try reflexivity.
+    apply rd_run. intros raw n3. destruct (data_decode raw); reflexivity. }
+  apply ex_run. intros [|] n1; [apply Hgo|].
+  apply ex_run. intros [|] n2; [|reflexivity].
+  apply ex_run. intros [|] n3; [apply Hgo | reflexivity].
+Qed.
+
+End SHARDED.
+
+(* --- the generic algorithm respects its byte source --- *)
+Section ALGO_FACTS.
+Variable idx_decode : list N -> option (list N).
+Variable locate : list (list N) -> N -> outcome (N * N).
+Variable data_decode : list N -> outcome (list N).
+
+Lemma populate_ext : forall rd1 rd2 legacy hl, (forall o l, rd1 legacy o l = rd2 legacy o l) ->
+  forall ranges acc, populate_pure idx_decode rd1 legacy hl ranges acc
+                     = populate_pure idx_decode rd2 legacy hl ranges acc.
+Proof.
+  intros rd1 rd2 legacy hl H. induction ranges as [|[off en] r IH]; intro acc; simpl; [reflexivity|].
+  destruct ((en + two64 - off) mod two64 =? 0); [apply IH|].
+  rewrite H. destruct (rd2 legacy (off + hl) _); try reflexivity. simpl.
+  destruct (idx_decode a) as [dec|]; [|reflexivity]. destruct (minishard_ok dec); try reflexivity. apply IH.
+Qed.
+
+Lemma algo_ext : forall ex1 ex2 rd1 rd2 missing hl cmc,
+  ex1 s_shard = ex2 s_shard -> ex1 s_index = ex2 s_index -> ex1 s_data = ex2 s_data ->
+  (forall lg o l, rd1 lg o l = rd2 lg o l) ->
+  shard_fetch_pure idx_decode locate data_decode ex1 rd1 missing hl cmc
+  = shard_fetch_pure idx_decode locate data_decode ex2 rd2 missing hl cmc.
+Proof.
+  intros ex1 ex2 rd1 rd2 missing hl cmc E1 E2 E3 Hr. unfold shard_fetch_pure.
+  rewrite E1, E2, E3.
+  assert (Hgo : forall legacy,
+    bind (rd1 legacy 0 hl) (fun hdr =>
+      bind (populate_pure idx_decode rd1 legacy hl (pairs (words64 (length hdr) hdr)) []) (fun idxs =>
+        match locate idxs cmc with
+        | Ok (off, len) => bind (rd1 legacy off len) (fun raw =>
+            match data_decode raw with Ok b => Ok b | Crash c => Crash c | _ => IOErr end)
+        | Crash c => Crash c | _ => IOErr end))
+    = bind (rd2 legacy 0 hl) (fun hdr =>
+      bind (populate_pure idx_decode rd2 legacy hl (pairs (words64 (length hdr) hdr)) []) (fun idxs =>
+        match locate idxs cmc with
+        | Ok (off, len) => bind (rd2 legacy off len) (fun raw =>
+            match data_decode raw with Ok b => Ok b | Crash c => Crash c | _ => IOErr end)
+        | Crash c => Crash c | _ => IOErr end))).
+  { intro legacy. rewrite Hr. destruct (rd2 legacy 0 hl) as [hdr| | | | | |]; try reflexivity. simpl.
+    rewrite (populate_ext rd1 rd2 legacy hl (Hr legacy)).
+    destruct (populate_pure idx_decode rd2 legacy hl _ []) as [idxs| | | | | |]; try reflexivity. simpl.
+    destruct (locate idxs cmc) as [[off len]| | | | | |]; try reflexivity. rewrite Hr. reflexivity. }
+  destruct (ex2 s_shard) as [[|]| | | | | |]; try reflexivity; simpl; [apply Hgo|].
+  destruct (ex2 s_index) as [[|]| | | | | |]; try reflexivity; simpl.
+  destruct (ex2 s_data) as [[|]| | | | | |]; try reflexivity; simpl. apply Hgo.
+Qed.
+
+(* if a stricter source (rd1) yields data, a laxer one (rd2) yields the same *)
+Lemma populate_mono : forall rd1 rd2 legacy hl,
+  (forall o l x, rd1 legacy o l = Ok x -> rd2 legacy o l = Ok x) ->
+  forall ranges acc r, populate_pure idx_decode rd1 legacy hl ranges acc = Ok r ->
+                       populate_pure idx_decode rd2 legacy hl ranges acc = Ok r.
+Proof.
+  intros rd1 rd2 legacy hl H. induction ranges as [|[off en] r IH]; intros acc res; simpl; [auto|].
+  destruct ((en + two64 - off) mod two64 =? 0); [apply IH|].
+  destruct (rd1 legacy (off + hl) _) as [raw| | | | | |] eqn:E; try discriminate.
+  rewrite (H _ _ _ E). simpl.
+  destruct (idx_decode raw) as [dec|]; [|discriminate]. destruct (minishard_ok dec); try discriminate. apply IH.
+Qed.
+
+Lemma algo_mono : forall ex rd1 rd2 m1 m2 hl cmc d,
+  (forall lg o l x, rd1 lg o l = Ok x -> rd2 lg o l = Ok x) ->
+  (forall x, m1 = Ok x -> m2 = Ok x) ->
+  shard_fetch_pure idx_decode locate data_decode ex rd1 m1 hl cmc = Ok d ->
+  shard_fetch_pure idx_decode locate data_decode ex rd2 m2 hl cmc = Ok d.
+Proof.
+  intros ex rd1 rd2 m1 m2 hl cmc d Hr Hm. unfold shard_fetch_pure.
+  assert (Hgo : forall legacy,
+    bind (rd1 legacy 0 hl) (fun hdr =>
+      bind (populate_pure idx_decode rd1 legacy hl (pairs (words64 (length hdr) hdr)) []) (fun idxs =>
+        match locate idxs cmc with
+        | Ok (off, len) => bind (rd1 legacy off len) (fun raw =>
+            match data_decode raw with Ok b => Ok b | Crash c => Crash c | _ => IOErr end)
+        | Crash c => Crash c | _ => IOErr end)) = Ok d ->
+    bind (rd2 legacy 0 hl) (fun hdr =>
+      bind (populate_pure idx_decode rd2 legacy hl (pairs (words64 (length hdr) hdr)) []) (fun idxs =>
+        match locate idxs cmc with
+        | Ok (off, len) => bind (rd2 legacy off len) (fun raw =>
+            match data_decode raw with Ok b => Ok b | Crash c => Crash c | _ => IOErr end)
+        | Crash c => Crash c | _ => IOErr end)) = Ok d).
+  { intro legacy. destruct (rd1 legacy 0 hl) as [hdr| | | | | |] eqn:E0; try discriminate.
+    rewrite (Hr _ _ _ _ E0). simpl.
+    destruct (populate_pure idx_decode rd1 legacy hl _ []) as [idxs| | | | | |] eqn:Ep; try discriminate.
+    rewrite (populate_mono rd1 rd2 legacy hl (Hr legacy) _ _ _ Ep). simpl.
+    destruct (locate idxs cmc) as [[off len]| | | | | |]; try discriminate.
+    destruct (rd1 legacy off len) as [raw| | | | | |] eqn:E1; try discriminate.
+    rewrite (Hr _ _ _ _ E1). simpl. auto. }
+  destruct (ex s_shard) as [[|]| | | | | |]; try discriminate; simpl; [apply Hgo|].
+  destruct (ex s_index) as [[|]| | | | | |]; try discriminate; simpl; [|apply Hm].
+  destruct (ex s_data) as [[|]| | | | | |]; try discriminate; simpl; [apply Hgo | apply Hm].
+Qed.
+End ALGO_FACTS.
+
+(* --- the documented server over a tree answers like the local files --- *)
+Section SERVE_SHARD.
+Variable B : Type.
+Variable plain : list N -> B.
+Variable gunzip : B -> gzres.
+Variable unplain : B -> option (list N).
+Variable slice : B -> N -> N -> option B.
+Hypothesis Hunplain : forall x, unplain (plain x) = Some x.
+(* Range semantics of the server on an unencoded file *)
+Hypothesis Hslice : forall d x a b, unplain d = Some x ->
+  slice d a b = if lenN x <=? a then None
+                else Some (plain (firstn (N.to_nat (b + 1 - a)) (skipn (N.to_nat a) x))).
+
+Variable sc : scfg.
+Variable t : fs B.
+Variable upath : list N.            (* URL path of the scale directory, no trailing slash *)
+Variable name : list N.             (* shard name (hex digits) *)
+Hypothesis Hrw : s_rewrite sc = false.          (* sharded data: no rewriting *)
+Hypothesis Htc : tree_closed B t.
+Definition sdir : path := s_root sc ++ ne_parts upath.
+Hypothesis Hclean : cleanb sdir = true.
+Hypothesis Hname : no_slash name /\ name <> [].
+(* "Sharded data must be served without any Content-Encoding": no
+   pre-compressed twin of a shard file is picked up by gzip_static *)
+Hypothesis Hnogz : forall suffix, In suffix [s_shard; s_index; s_data] ->
+  file_at B t (with_gz (shard_file sdir name suffix)) = None.
+
+(* the shard files hold plain bytes *)
+Hypothesis Hplain : forall suffix d, In suffix [s_shard; s_index; s_data] ->
+  lookup B t (shard_file sdir name suffix) = Some (File d) -> exists x, unplain d = Some x.
+
+Definition scale_url : list N := s_origin sc ++ upath ++ [slash].
+
+Lemma suffix_facts : forall suffix, In suffix [s_shard; s_index; s_data] ->
+  no_slash (name ++ suffix) /\ name ++ suffix <> [] /\ is_dotdot (name ++ suffix) = false.
+Proof.
+  intros suffix Hs. destruct Hname as [Hn Hne]. split; [|split].
+  - apply Forall_app. split; [exact Hn|].
+    destruct Hs as [<-|[<-|[<-|[]]]]; repeat constructor; unfold slash; discriminate.
+  - intro E. apply app_eq_nil in E as [E _]. contradiction.
+  - apply bytes_eqb_neq. intro E. apply (f_equal (@length _)) in E. rewrite app_length in E.
+    destruct Hs as [<-|[<-|[<-|[]]]]; simpl in E; lia.
+Qed.
+
+Lemma shard_url_parts : forall suffix, In suffix [s_shard; s_index; s_data] ->
+  url_to_parts sc ((scale_url ++ name) ++ suffix) = Some (ne_parts upath ++ [name ++ suffix]).
+Proof.
+  intros suffix Hs. destruct (suffix_facts suffix Hs) as [H1 [H2 _]].
+  assert (E : (scale_url ++ name) ++ suffix = s_origin sc ++ (upath ++ slash :: (name ++ suffix)))
+    by (unfold scale_url; rewrite <- !app_assoc; reflexivity).
+  unfold url_to_parts. rewrite E, starts_with_app, skipn_app_exact. f_equal.
+  change (ne_parts (upath ++ slash :: (name ++ suffix)) = ne_parts upath ++ [name ++ suffix]).
+  rewrite ne_parts_app, (ne_parts_comp _ H1 H2). reflexivity.
+Qed.
+
+Lemma shard_file_clean : forall suffix, In suffix [s_shard; s_index; s_data] ->
+  cleanb (shard_file sdir name suffix) = true.
+Proof.
+  intros suffix Hs. destruct (suffix_facts suffix Hs) as [_ [_ H3]].
+  unfold shard_file. rewrite cleanb_app, Hclean. simpl. rewrite H3. reflexivity.
+Qed.
+
+(* what the server finds for a shard file *)
+Lemma serve_shard_found : forall suffix m rg, In suffix [s_shard; s_index; s_data] ->
+  serve B (plain []) slice sc t 0%nat
+        {| r_meth := m; r_url := (scale_url ++ name) ++ suffix; r_range := rg |}
+  = serve_parts B (plain []) slice sc t (ne_parts upath ++ [name ++ suffix]) m rg.
+Proof. intros suffix m rg Hs. unfold serve. simpl. rewrite (shard_url_parts suffix Hs). reflexivity. Qed.
+
+Lemma found_shard : forall suffix, In suffix [s_shard; s_index; s_data] ->
+  forall m rg,
+  serve_parts B (plain []) slice sc t (ne_parts upath ++ [name ++ suffix]) m rg =
+  match file_at B t (shard_file sdir name suffix) with
+  | None => Resp 404 false (plain [])
+  | Some d =>
+      match m with
+      | HEAD => Resp 200 false (plain [])
+      | GET => match rg with
+               | None => Resp 200 false d
+               | Some (a, b) => if b <? a then Resp 200 false d
+                                else match slice d a b with
+                                     | Some s => Resp 206 false s
+                                     | None => Resp 416 false (plain [])
+                                     end
+               end
+      end
+  end.
+Proof.
+  intros suffix Hs m rg. unfold serve_parts. rewrite Hrw.
+  replace (s_root sc ++ ne_parts upath ++ [name ++ suffix]) with (shard_file sdir name suffix)
+    by (unfold shard_file, sdir; rewrite app_assoc; reflexivity).
+  rewrite (Hnogz suffix Hs). destruct (s_gzip_static sc);
+    destruct (file_at B t (shard_file sdir name suffix)); reflexivity.
+Qed.
+
+Lemma file_at_is_file : forall p, cleanb p = true ->
+  is_file B t p = match file_at B t p with Some _ => true | None => false end.
+Proof.
+  intros p Hc. unfold file_at. rewrite (has_dotdot_clean p Hc).
+  destruct (lookup B t p) as [[d|]|] eqn:El.
+  - apply (lookup_is_file B t p d Htc Hc El).
+  - apply is_file_false; [exact Hc|]. intros b Hb. congruence.
+  - apply is_file_false; [exact Hc|]. intros b Hb. congruence.
+Qed.
+
+(* existence probes agree *)
+Lemma serve_ex_local : forall suffix, In suffix [s_shard; s_index; s_data] ->
+  http_ex B (serve B (plain []) slice sc t) ((scale_url ++ name) ++ suffix)
+  = local_ex B t sdir name suffix.
+Proof.
+  intros suffix Hs. unfold http_ex, local_ex.
+  rewrite (serve_shard_found suffix HEAD None Hs), (found_shard suffix Hs).
+  rewrite (file_at_is_file _ (shard_file_clean suffix Hs)).
+  destruct (file_at B t (shard_file sdir name suffix)); reflexivity.
+Qed.
+
+Lemma pick_suffix : forall legacy hl off, In (fst (pick legacy hl off)) [s_shard; s_index; s_data].
+Proof.
+  intros legacy hl off. unfold pick. destruct legacy; [destruct (off <? hl)|]; simpl; auto.
+Qed.
+
+(* reads agree with the local seek+read, plus the length check *)
+Lemma serve_rd_local : forall hl legacy off len,
+  http_rd B plain gunzip unplain (serve B (plain []) slice sc t) (scale_url ++ name) hl legacy off len
+  = local_rd B unplain true t sdir name hl legacy off len.
+Proof.
+  intros hl legacy off len. unfold http_rd, local_rd.
+  destruct (N.eqb_spec len 0) as [|Hlen]; [reflexivity|].
+  pose proof (pick_suffix legacy hl off) as Hs.
+  destruct (pick legacy hl off) as [suffix o]. simpl in Hs.
+  rewrite (serve_shard_found suffix GET _ Hs), (found_shard suffix Hs).
+  unfold file_at. rewrite (has_dotdot_clean _ (shard_file_clean suffix Hs)).
+  destruct (lookup B t (shard_file sdir name suffix)) as [[d|]|] eqn:El; try reflexivity.
+  assert (Hba : (o + len - 1 <? o) = false) by (apply N.ltb_ge; lia).
+  rewrite Hba.
+  destruct (unplain d) as [x|] eqn:Eu.
+  - rewrite (Hslice d x o (o + len - 1) Eu).
+    replace (o + len - 1 + 1 - o) with len by lia.
+    destruct (N.leb_spec (lenN x) o) as [Hle|Hgt].
+    + (* range starts beyond the file: 416 *)
+      replace (is_error_status 416) with true by reflexivity.
+      assert (Hy : firstn (N.to_nat len) (skipn (N.to_nat o) x) = []).
+      { rewrite skipn_all2; [apply firstn_nil|]. unfold lenN in Hle. lia. }
+      rewrite Hy. change (lenN (@nil N)) with 0.
+      destruct (N.eqb_spec 0 len); [lia | reflexivity].
+    + replace (is_error_status 206) with false by reflexivity.
+      unfold content. rewrite Hunplain.
+      destruct (lenN (firstn (N.to_nat len) (skipn (N.to_nat o) x)) =? len); reflexivity.
+  - destruct (Hplain suffix d Hs El) as [x Hx]. congruence.
+Qed.
+
+Variable idx_decode : list N -> option (list N).
+Variable locate : list (list N) -> N -> outcome (N * N).
+Variable data_decode : list N -> outcome (list N).
+
+(* Sharded datasets: for a scale directory served as documented (no
+   rewriting, no Content-Encoding, Range support), the chunk that the sharded
+   HTTP reader returns for an identifier - HEAD probes for .shard vs legacy
+   .index/.data, Range reads of the shard index and of the minishard indices,
+   the lookup, the Range read of the chunk - is what the local reader's
+   algorithm returns on the files, reading with a length check; a missing
+   shard is an I/O error. *)
+Theorem http_eq_local_sharded : forall hl cmc n,
+  fst (hrun B (serve B (plain []) slice sc t) n
+         (hs_fetch B plain gunzip unplain idx_decode locate data_decode scale_url name hl cmc))
+  = omap B plain
+      (shard_fetch_pure idx_decode locate data_decode
+         (local_ex B t sdir name) (local_rd B unplain true t sdir name hl) IOErr hl cmc).
+Proof.
+  intros hl cmc n.
+  rewrite (hs_fetch_is_algo B plain gunzip unplain idx_decode locate data_decode
+             (serve B (plain []) slice sc t) (fun _ _ _ => eq_refl)).
+  f_equal. apply algo_ext.
+  - apply serve_ex_local. simpl. auto.
+  - apply serve_ex_local. simpl. auto.
+  - apply serve_ex_local. simpl. auto.
+  - intros lg o l. apply serve_rd_local.
+Qed.
+
+End SERVE_SHARD.
+
+(* the length check only ever turns data into an error: whenever the checked
+   reader returns bytes, the local reader as coded (plain seek + read, a
+   missing shard failing its assertion) returns the same bytes *)
+Theorem sharded_checked_is_local :
+  forall (B : Type) (unplain : B -> option (list N)) idx_decode locate data_decode
+         (t : fs B) dir name hl cmc d,
+  shard_fetch_pure idx_decode locate data_decode
+    (local_ex B t dir name) (local_rd B unplain true t dir name hl) IOErr hl cmc = Ok d ->
+  shard_fetch_pure idx_decode locate data_decode
+    (local_ex B t dir name) (local_rd B unplain false t dir name hl) (Crash AssertionError) hl cmc = Ok d.
+Proof.
+  intros B unplain idx_decode locate data_decode t dir name hl cmc d.
+  apply algo_mono; [|intros x Hx; discriminate].
+  intros lg o l x. unfold local_rd. destruct (l =? 0); [auto|].
+  destruct (pick lg hl o) as [suffix o']. destruct (lookup B t (shard_file dir name suffix)) as [[f|]|]; auto.
+  destruct (unplain f) as [y|]; auto. simpl andb.
+  destruct (negb (lenN (firstn (N.to_nat l) (skipn (N.to_nat o') y)) =? l)); [discriminate | auto].
+Qed.
+
+(* ... and in-bounds reads are not affected by the check *)
+Lemma local_rd_in_bounds : forall (B : Type) (unplain : B -> option (list N)) (t : fs B) dir name hl lg off len f y,
+  lookup B t (shard_file dir name (fst (pick lg hl off))) = Some (File f) -> unplain f = Some y ->
+  snd (pick lg hl off) + len <= lenN y ->
+  local_rd B unplain true t dir name hl lg off len = local_rd B unplain false t dir name hl lg off len.
+Proof.
+  intros B unplain t dir name hl lg off len f y Hl Hu Hb. unfold local_rd.
+  destruct (len =? 0); [reflexivity|]. destruct (pick lg hl off) as [suffix o]. simpl in *.
+  rewrite Hl, Hu. simpl andb.
+  assert (E : lenN (firstn (N.to_nat len) (skipn (N.to_nat o) y)) = len).
+  { unfold lenN in *. rewrite firstn_length, skipn_length. lia. }
+  rewrite E, N.eqb_refl. reflexivity.
+Qed.
+
+(* ---------- witness: a real one-chunk shard, served ---------- *)
 
 Definition le64 (n : N) : list N :=
   [n mod 256; (n / 256) mod 256; 0; 0; 0; 0; 0; 0].
@@ -617,20 +1007,23 @@ Definition w_unplain (d : blob) : option (list N) := match d with BPlain x => So
 (* the local reader's answer for identifier 0: 1 byte at offset 16 *)
 Definition w_locate (_ : list (list N)) (_ : N) : outcome (N * N) := Ok (16, 1).
 
-Definition w_fetch (use_ro : bool) : outcome blob :=
+Definition w_fetch : outcome blob :=
   fst (hrun blob (serve blob (BPlain []) w_slice w_site w_http_tree) 0
          (hs_fetch blob BPlain (blob_gunzip []) w_unplain (fun b => Some b) w_locate (fun b => Ok b)
-                   use_ro [104;47;107;47] [48] 16 0)).
+                   [104;47;107;47] [48] 16 0)).
+Definition w_local (checked : bool) : outcome (list N) :=
+  shard_fetch_pure (fun b => Some b) w_locate (fun b => Ok b)
+    (local_ex blob w_http_tree [[107]] [48]) (local_rd blob w_unplain checked w_http_tree [[107]] [48] 16)
+    (if checked then IOErr else Crash AssertionError) 16 0.
 
-Lemma http_sharded_refuted_witness :
-  w_fetch false = Crash AssertionError /\ w_fetch true = Ok (BPlain [65]).
-Proof. vm_compute. split; reflexivity. Qed.
+Lemma http_sharded_witness :
+  w_fetch = Ok (BPlain [65]) /\ w_local true = Ok [65] /\ w_local false = Ok [65].
+Proof. vm_compute. repeat split. Qed.
 
-(* C18: a missing shard (HTTP 404 on every probe) surfaces as AssertionError,
-   not as a data-access / I/O error *)
+(* a missing shard (HTTP 404 on every probe) is an I/O error *)
 Definition w_all_404 : server blob := fun _ _ => Resp 404 false (BPlain []).
-Lemma missing_shard_assertion_refuted :
+Lemma missing_shard_io_error :
   fst (hrun blob w_all_404 0
          (hs_fetch blob BPlain (blob_gunzip []) w_unplain (fun b => Some b) w_locate (fun b => Ok b)
-                   false [104;47;107;47] [48] 16 0)) = Crash AssertionError.
+                   [104;47;107;47] [48] 16 0)) = IOErr.
 Proof. vm_compute. reflexivity. Qed.
